@@ -91,7 +91,10 @@ def run(ctx, rep):
         inits += li
     if good:
         rets = [x for x in cfg.live_nodes() if x.kind == "return"]
-        handlers = [x for x in cfg.live_nodes() if x.kind == "except"]
+        all_handlers = [x for x in cfg.live_nodes() if x.kind == "except"]
+        # the handler that turns a refusal into False; further handlers may only sit inside it (a hook called
+        # after the refusal, contained)
+        handlers = [x for x in all_handlers if not any(o is not x and cfg.dominates(o.id, x.id) for o in all_handlers)]
         good = len(handlers) == 1 and utext(handlers[0].ast.type) == "ControlError" and \
             {utext(x.ast.value) if x.ast.value is not None else "None" for x in rets} == {"True", "False"}
         for x in rets:
@@ -336,9 +339,12 @@ def _r5(ctx, rep, se, cfg):
             continue
         n, o = cands[0]
         # limit on the left after orientation: `limit < value`  <=>  value > limit
-        rep.check(o[1] == "<", "R5", key(se, n.exprs[0], "refuses when the value exceeds the limit (strict >)"), se,
+        # `limit < value` refuses on its true edge; `limit >= value` (the source said `not value <= limit`) on
+        # its false edge - the same test for numbers, and NaN is refused as well
+        edge = {"<": "T", ">=": "F"}.get(o[1])
+        rep.check(edge is not None, "R5", key(se, n.exprs[0], "refuses when the value exceeds the limit (strict >)"), se,
                   n.exprs[0], "canonical form: %s %s %s" % o)
-        tgt = [m for l, m in n.succ if l == "T"][0]
+        tgt = [m for l, m in n.succ if l == (edge or "T")][0]
         tn = cfg.nodes[tgt]
         rep.check(any(call_name(c) == "_on_error" for c in calls_in(tn)), "R5",
                   key(se, n.exprs[0], "the true edge refuses the order"), se, n.exprs[0])
